@@ -123,6 +123,7 @@ def rule_recycle_keeps(ctx):
 def rule_no_phantom_changes(ctx):
     """R-C04-6: the two places that decide "nothing changed" compare like with like."""
     shared.check_from_inp_call_sites(ctx, "the digest computed before the run and the one computed for the skip test differ in an ingredient: a step whose inputs did not change is executed again (or the reverse)")
+    shared.check_registration_keeps_subs(ctx, "the director records an unrestricted pattern next to the restricted matches the client found: the first restart sees phantom additions and reruns the plan although nothing changed")
     shared.check_rescan_rebuilds_registered_matcher(ctx, "the restart rescan matches with another matcher than the registered one: every restart sees phantom additions or deletions and reruns the plan although nothing changed")
 
 
@@ -136,6 +137,8 @@ RULES = [
 ]
 
 MUTANTS = [
+    Mutant("skip-check-reads-os-environ", "executor.py", in_function("Executor._compute_inp_step_hash", replace_once("{name: self.base_env.get(name) for name in env_deps}", "{name: os.environ.get(name) for name in env_deps}")), ("R-C04-6",)),
+    Mutant("registration-drops-subs", "director.py", in_function("DirectorHandler.register_glob", replace_once("ng = NamedGlob(pattern, subs)", "ng = NamedGlob(pattern)")), ("R-C04-6",)),
     Mutant("rescan-drops-subs", "startup.py", in_function("rescan_nglobs", replace_once("NamedGlob(old_ng.pattern, old_ng.subs)", "NamedGlob(old_ng.pattern)")), ("R-C04-6",)),
     Mutant("dispatch-succeeded", "step.py", replace_once("STEP_DISPATCH_WHERE = f\"\"\"step.state = {StepState.PENDING.value} AND", "STEP_DISPATCH_WHERE = f\"\"\"step.state IN ({StepState.PENDING.value}, {StepState.SUCCEEDED.value}) AND"), ("R-C04-1",)),
     Mutant("always-run", "job.py", in_function("RunJob.runs_command", replace_once("return self.step_hash is None", "return True")), ("R-C04-1",)),
